@@ -175,6 +175,19 @@ def documented_codes(entry, components):
     return sorted(c for c in codes if 2000 <= c <= 2010)
 
 
+def request_method_name(entry, comps, rpc):
+    if rpc:
+        return entry.get('name', '')
+    try:
+        sch = entry['post']['requestBody']['content']['application/json']['schema']
+        if '$ref' in sch:
+            sch = comps[sch['$ref'].rsplit('/', 1)[-1]]
+        m = sch['properties']['method']
+        return m['const'] if 'const' in m else m['enum'][0]
+    except Exception:
+        return ''
+
+
 def observe(case):
     rpc = case['kind'] == 'rpc'
     mod = orpc if rpc else oa
@@ -230,7 +243,7 @@ def observe(case):
         try:
             doc = spec.schema(path='/api', methods_map=methods_map, **({} if rpc else {'component_name_prefix': case['global_prefix']}))
         except Exception as e:
-            gens.append({'keys': [], 'entries': [], 'components': [], 'refs': ['<generation raised %s>' % type(e).__name__], 'digest': 'x',
+            gens.append({'keys': [], 'entries': [], 'names': [], 'components': [], 'refs': ['<generation raised %s>' % type(e).__name__], 'digest': 'x',
                          'json_ok': False, 'meta_ok': False})
             heaps.append(snapshot())
             continue
@@ -254,8 +267,9 @@ def observe(case):
         else:
             keys = list(doc['paths'])
             entries = list(doc['paths'].items())
-        ent = []
+        ent, names = [], []
         for k, e in entries:
+            names.append((k, request_method_name(e, comps, rpc)))
             direct = sorted({r.rsplit('/', 1)[-1] for r in all_refs(e, [])})
             codes = set(documented_codes(e, comps))
             if not rpc:
@@ -266,7 +280,7 @@ def observe(case):
                         codes.add(code)
             ent.append((k, sorted(codes), direct))
         refs = sorted({r.rsplit('/', 1)[-1] if r.startswith('#/components/schemas/') else r for r in all_refs(doc, [])})
-        gens.append({'keys': keys, 'entries': ent, 'components': sorted(comps), 'refs': refs,
+        gens.append({'keys': keys, 'entries': ent, 'names': names, 'components': sorted(comps), 'refs': refs,
                      'digest': hashlib.md5(text.encode()).hexdigest(), 'json_ok': json_ok, 'meta_ok': meta_ok})
         heaps.append(snapshot())
     # oracle: which errors the extractors report for each function
@@ -304,8 +318,9 @@ def encode(case, obs):
     gens = []
     for g in obs['gens']:
         ents = clist('(%s, (%s, %s))' % (cstr(k), clist(cZ(c) for c in codes), clist(cstr(r) for r in refs)) for k, codes, refs in g['entries'])
-        gens.append('{| g_keys := %s; g_entries := %s; g_components := %s; g_all_refs := %s; g_digest := %s; g_json_ok := %s; g_meta_ok := %s |}'
-                    % (clist(cstr(k) for k in g['keys']), ents, clist(cstr(c) for c in g['components']), clist(cstr(r) for r in g['refs']),
+        gens.append('{| g_keys := %s; g_entries := %s; g_names := %s; g_components := %s; g_all_refs := %s; g_digest := %s; g_json_ok := %s; g_meta_ok := %s |}'
+                    % (clist(cstr(k) for k in g['keys']), ents, clist('(%s, %s)' % (cstr(k), cstr(n)) for k, n in g['names']),
+                       clist(cstr(c) for c in g['components']), clist(cstr(r) for r in g['refs']),
                        cstr(g['digest']), cbool(g['json_ok']), cbool(g['meta_ok'])))
     return ('{| is_rpc := %s; oas30 := %s; global_prefix := %s; heap_before := %s; methods := %s; gens := %s; heaps_after := %s |}'
             % (cbool(rpc), cbool(case['kind'].startswith('3.0')), cstr('' if rpc else case['global_prefix']), cheap(obs['before']), clist(ms), clist(gens),
